@@ -163,6 +163,10 @@ def p_C04(tier, seed):
                              max_states=1, wd_name="C04c"))
     nh, nk, no = scope(tier, (8, [16, 40], 300), (32, [16, 40, 100], 1500))
     f.merge(engines.engine_B("C04", ["pq", "dpq"], seed, nh, nk, no))
+    # iterators: a cursor that underflows (panic) or hands out the same element twice (two live &mut) is a
+    # fault-free panic / undefined behaviour
+    f.merge(engines.engine_C("C04", ["pq", "dpq"], ["iter_mut", "iter_mut_ref", "drain", "iter"],
+                             scope(tier, [0, 1, 2, 3], [0, 1, 2, 3, 4]), scope(tier, 4, 5), adaptors=False, wd_name="C04i"))
     # the index-table lemma from EVERY pair of mutually inverse tables (all n! arrangements), and the inductive
     # step of the whole alphabet from every well-formed ordered store
     wd = vlib.workdir("C04_tables")
@@ -450,6 +454,15 @@ def p_C14(tier, seed):
                     build = [how] + [rename(dict(st, q=2), ren) for st in o["steps"]]
                     probes.append(build + [{"op": "eq", "q": 1, "o": 2}, {"op": "ne", "q": 1, "o": 2},
                                            {"op": "eq", "q": 2, "o": 1}, {"op": "eq", "q": 1, "o": 1}])
+            # Clone::clone_from: a queue of every other covering state becomes a copy of this one (and vice versa),
+            # must then be equal to it, report its length and contents, and stay usable
+            pmx = "pop" if kind == "pq" else "pop_max"
+            for j, o in enumerate(reps):
+                build = [{"op": "new", "q": 2}] + [dict(st, q=2) for st in o["steps"]]
+                probes.append(build + [{"op": "clone_from", "q": 2, "src": 1}, {"op": "eq", "q": 2, "o": 1},
+                                       {"op": "contents", "q": 2}, {"op": pmx, "q": 2},
+                                       {"op": "push", "q": 2, "k": names[0], "r": 1}, {"op": "contents", "q": 2},
+                                       {"op": "contents", "q": 1}])
             # clones: every state-changing probe on the clone must leave the source untouched (final witness)
             probes += [p for p in mc["probes"] if light(p) and p["op"] not in READS]
             cases.append({"case": [kind, i], "kind": kind, "hasher": hashers[i % 3], "universe": engines.keyset(n),
@@ -694,7 +707,8 @@ PROPS = {
     "C03": {"run": p_C03, "level": "model_checking",
             "relevant": lambda fl: bool(set(fl["tags"]) & CONTENT_TAGS)},
     "C04": {"run": p_C04, "level": "model_checking", "aborts": True,
-            "relevant": lambda fl: bool(set(fl["tags"]) & SAFETY_TAGS)},
+            "relevant": lambda fl: bool(set(fl["tags"]) & SAFETY_TAGS)
+            or (fl["op"] == "iter_calls" and bool(set(fl["tags"]) & {"iter_panic", "iter_dup"}))},
     "C05": {"run": p_C05, "level": "model_checking",
             "relevant": lambda fl: "cost" in fl["tags"]},
     "C06": {"run": p_C06, "level": "model_checking",
@@ -712,7 +726,8 @@ PROPS = {
             and fl["cause"].get("it") in ("iter", "iter_ref", "into_iter", "drain", "sorted")
             and bool(set(fl["tags"]) & {"iter_dup", "iter_unknown", "iter_missing", "iter_after_none", "iter_len", "iter_hint", "iter_panic", "iter_last", "iter_position"})},
     "C14": {"run": p_C14, "level": "model_checking",
-            "relevant": lambda fl: fl["op"] in ("eq", "ne", "clone") or fl["phase"] == "hist"
+            "relevant": lambda fl: fl["op"] in ("eq", "ne", "clone", "clone_from") or fl["cause_op"] in ("clone", "clone_from")
+            or fl["phase"] == "hist"
             or (fl["op"] in ("contents",) and fl.get("event", {}).get("q") == 0)},
     "C15": {"run": p_C15, "level": "model_checking", "aborts": True,
             "relevant": lambda fl: fl["cause_op"] in ("de", "roundtrip", "de_tokens", "ser") or fl["op"] in ("de", "roundtrip", "de_tokens", "ser")
